@@ -84,6 +84,9 @@ pub fn run_history(h: &History, out: &mut Out) {
     let r = guarded(|| {
         let mut bufs = CurveBuffers::default();
         let mut sp = SliderPath::new(mode, pool[0].clone(), h.lens[0]);
+        // what the path was GIVEN (constructor, accessors), tracked independently of what it reports
+        let mut given_pts = pool[0].clone();
+        let mut given_len = h.lens[0];
         let mut pending_mut = false;
         for (n, op) in h.ops.iter().enumerate() {
             // reference: fresh buffers, owned API, the *current* inputs
@@ -118,8 +121,8 @@ pub fn run_history(h: &History, out: &mut Out) {
                 }
                 Op::SpCurve => {
                     line.u(2);
-                    let cps = sp.control_points().to_vec();
-                    let e = sp.expected_dist();
+                    let cps = given_pts.clone();
+                    let e = given_len;
                     let c = sp.curve();
                     res.u(0);
                     dump_curve(&mut res, c.path(), c.lengths());
@@ -132,8 +135,8 @@ pub fn run_history(h: &History, out: &mut Out) {
                 }
                 Op::SpCurveWithBufs => {
                     line.u(3);
-                    let cps = sp.control_points().to_vec();
-                    let e = sp.expected_dist();
+                    let cps = given_pts.clone();
+                    let e = given_len;
                     let c = sp.curve_with_bufs(&mut bufs);
                     res.u(0);
                     dump_curve(&mut res, c.path(), c.lengths());
@@ -145,8 +148,8 @@ pub fn run_history(h: &History, out: &mut Out) {
                 }
                 Op::SpBorrowed => {
                     line.u(4);
-                    let cps = sp.control_points().to_vec();
-                    let e = sp.expected_dist();
+                    let cps = given_pts.clone();
+                    let e = given_len;
                     let c = sp.borrowed_curve(&mut bufs);
                     res.u(0);
                     dump_curve(&mut res, c.path(), c.lengths());
@@ -159,11 +162,13 @@ pub fn run_history(h: &History, out: &mut Out) {
                 Op::SetPoints(k) => {
                     line.u(5).u(k as u64);
                     *sp.control_points_mut() = pool[k].clone();
+                    given_pts = pool[k].clone();
                     pending_mut = true;
                 }
                 Op::SetDist(l) => {
                     line.u(6).u(l as u64);
                     *sp.expected_dist_mut() = h.lens[l];
+                    given_len = h.lens[l];
                     pending_mut = true;
                 }
                 Op::Clear => {
